@@ -31,17 +31,19 @@ meta["confirmed"] = bool(meta.get("demo_on_head_exit") == 0 and meta.get("patch_
 # work reading /repo is not disturbed; equivalent to `git -C /repo apply` + run + `git checkout -- .`
 wt2 = tempfile.mkdtemp(prefix="ft-sw-")
 os.rmdir(wt2)
+out = tempfile.mkdtemp(prefix="ft-so-")
 try:
     assert sh(f"git -C /repo worktree add --detach {wt2} HEAD").returncode == 0
     assert sh(f"git -C {wt2} apply {src}/patch.diff").returncode == 0
     for p in props:
         t0 = time.time()
-        r = sh(f"FT_REPO={wt2} {V}/check {p} --tier quick --no-build", cwd=V)
+        r = sh(f"FT_REPO={wt2} VERIF_OUT={out} {V}/check {p} --tier quick --no-build", cwd=V)
         lines = [l for l in r.stdout.splitlines() if l.startswith("VIOLATION") or l.startswith(p + " [")]
         meta["ran"].append({"check": p, "exit": r.returncode, "wall_s": round(time.time() - t0, 1), "lines": lines[:6],
                             "how": "FT_REPO=<scratch worktree of /repo HEAD with patch.diff applied> ./check " + p + " --tier quick"})
 finally:
     sh(f"git -C /repo worktree remove --force {wt2}")
+    shutil.rmtree(out, ignore_errors=True)
 meta["caught_by"] = [x["check"] for x in meta["ran"] if x["exit"] == 1]
 dst = os.path.join(V, "seeded", sid)
 os.makedirs(dst, exist_ok=True)
